@@ -99,27 +99,4 @@ theorem runChain_single_throttle (cap : CapFn) (url method : String) (hs : List 
       rw [runChain_no_throttle cap url method hs t ps _ _ hp.2 hrest]
       simp
 
-theorem storeWalk_plain (ch : List DPol) (seen : Int × String) (hp : ch.all plain = true) :
-    storeWalk ch seen = none := by
-  induction ch generalizing seen with
-  | nil => rfl
-  | cons p ps ih =>
-    simp only [List.all_cons, Bool.and_eq_true] at hp
-    have hpl := hp.1
-    unfold plain isTransparent remedyOf at hpl
-    unfold storeWalk
-    split
-    · split <;> exact ih _ hp.2
-    · simp_all
-    · exact ih _ hp.2
-
-theorem storeEarly_plain (c : List ((String × String) × (Int × String))) (ch : List DPol) (url method : String)
-    (a : DAns) (hp : ch.all plain = true) : storeEarly c ch url method a = c := by
-  cases a with
-  | pass => rfl
-  | err => rfl
-  | early st b =>
-    simp only [storeEarly, storeWalk_plain ch (st, b) hp]
-    split <;> rfl
-
 end LunarVerif.C09
